@@ -263,7 +263,7 @@ def run(ctx):
     from cotengra.core import get_slice_strides
 
     rng = ctx.rng
-    ncases = ctx.n(140, 1500)
+    ncases = ctx.n(300, 2500)
     cap = ctx.n(64, 128)
     cases, records = [], []
     oracle_bad = set()
